@@ -21,7 +21,7 @@ for cid in props:
         "evidence_file": "evidence/%s.json" % cid,
         "replay_cmd_template": "python3 check.py %s --replay {path}" % cid,
         "engine": c["engine"],
-        "level_claimed": {"category": c.get("level", "exploration"), "text": c["level_text"], "design_ref": c.get("design_ref", "DESIGN.md §3 " + cid)},
+        "level_claimed": {"category": c.get("level", "exploration"), "text": c["level_text"], "design_ref": c.get("design_ref", "DESIGN.md §9.3 row " + cid + " (as built), §9.4 findings; §3 " + cid + " (plan)")},
         "level_note": c["level_note"],
         "technique": c["technique"],
     }
